@@ -81,7 +81,7 @@ def scenarios(tier):
             names = QUICK_MUT[kind_]
         for nm in names:
             prefix, ev = MUT[kind_][nm]
-            for mode in ("wc", "thr", "both"):
+            for mode in ("wc", "thr", "both") + (("thr-late",) if nm in ("setitem", "append") else ()):
                 cfg = seq.Config(c, initial=(INIT[kind_],), prefix=prefix, label=c)
                 out.append({"label": "%s/%s/%s" % (c, nm, mode), "cfg": cfg, "mode": mode, "pre": (), "window": (ev,),
                             "family": "mutator"})
